@@ -99,6 +99,30 @@ CLAIMS = {
             "their set-theoretic reading on the observed results.",
             "Finite universes. One recorded finding (TypeSum of different layouts).", "TLA+ spec + TLC law evaluation over observed results of the real type algebra",
             "DESIGN.md 6/C10"),
+    "C11": ("model_checking",
+            "Logic.tla: TLC checks that the specified AND/OR/NOT are Kleene's strong three-valued logic (min/max/reversal on F<N<T, De Morgan, "
+            "associativity, distributivity), then exports boolean expression trees of depth <= 2 (151 424; a seeded RandomSubset in quick) over two boolean "
+            "columns, three strict integer comparisons and the constants TRUE/FALSE/NULL with their SQL text and expected value for all 81 (nullable "
+            "typing) and 16 (non-nullable typing) assignments. Each tree runs through the real parser, typechecker, materialiser and evaluator as a "
+            "projection and as a WHERE clause (in-process engine mirroring cmd/root.go) and is compared for equality; every strict overload of "
+            "FunctionMap() is called through the same path with NULL in each argument position.",
+            "Trees rejected by the typechecker are skipped (counted). Trusted: in-process engine glue (copy of cmd/root.go's csv/json branch), TLC.",
+            "TLA+ spec + TLC-exported exhaustive expression cases replayed through the real typecheck/materialise/evaluate pipeline", "DESIGN.md 6/C11"),
+    "C12": ("model_checking",
+            "Strings.tla specifies upper/lower/reverse/replace/position/len/substr on rune sequences and LIKE as a recursive matcher (any, all, escape, "
+            "literal); StringCases.tla exports an exhaustive LIKE core (7 distinguishing runes, strings <= 2 x patterns <= 3), seeded samples over a "
+            "27-rune alphabet with every regexp metacharacter, newline and multibyte runes, and regular-expression inputs built from 27 fragments. "
+            "Each case is evaluated through the real typecheck/materialise/evaluate path; ~ and ~* are compared with Go's regexp (and (?i)). Five "
+            "defects found were repaired.",
+            "Byte-vs-rune indexing on multibyte text, empty search strings and negative indices are Unpinned (no panic only).",
+            "TLA+ spec + TLC-exported cases replayed on the real function descriptors", "DESIGN.md 6/C12"),
+    "C13": ("model_checking",
+            "Numeric.tla specifies int arithmetic with wrap-around laws on Min/MaxInt64, float arithmetic on exact fractions with the IEEE special-value "
+            "algebra, ceil/floor/sqrt/log/pow on exactly representable cases, conversions (failed parse => NULL), duration/time arithmetic, IN/NOT IN, "
+            "list indexing (out of range => NULL), COALESCE and the unix-time round trip (incl. 64-bit values). NumericCases.tla exports every overload "
+            "x boundary catalogue; each case runs through the real pipeline and is compared (exact, or within 1e-9 where the result is not a dyadic).",
+            "libm accuracy beyond exact cases is Unpinned; TLC's 32-bit integers limit operands to the catalogue.",
+            "TLA+ spec + TLC-exported boundary cases replayed on the real function descriptors", "DESIGN.md 6/C13"),
 }
 
 NA_DEFAULT = "check not built yet (work in progress; will be claimed once its TLA+ spec and conformance harness are committed)"
